@@ -141,6 +141,37 @@ def gen_dijkstra(rng, n):
     return ops
 
 
+KEY_DBLMAX = 4000000000000000000   # stands for std::numeric_limits<double>::max() (see harness/c16.cpp)
+KEY_INF = 4000000000000000001      # stands for +infinity
+
+
+def gen_extreme(rng, cap):
+    """histories with keys at the extremes of the double range: the Dijkstra-with-preload pattern (every
+    vertex inserted with DBL_MAX / +inf as 'infinity', then decreased as it is discovered), ties at the
+    extremes, extractions while every remaining key is extreme."""
+    ops = []
+    big = rng.choice([KEY_DBLMAX, KEY_INF])
+    n = rng.randint(min(2, cap), cap)
+    idx = rng.sample(range(cap), n)
+    src = idx[0]
+    ops.append(("i", src, 0))
+    for i in idx[1:]:
+        ops.append(("i", i, big if rng.random() < 0.8 else rng.choice([KEY_DBLMAX, KEY_INF, 10 ** 18, 7])))
+    lo = 1
+    for _ in range(rng.randint(1, 3 * n)):
+        r = rng.random()
+        if r < 0.45:
+            ops.append(("x",))
+        elif r < 0.9:
+            lo += rng.randint(0, 3)
+            ops.append(("d", rng.choice(idx), rng.choice([lo, KEY_DBLMAX, 10 ** 18])))
+        else:
+            ops.append(("i", rng.randrange(cap), rng.choice([KEY_INF, KEY_DBLMAX, lo])))
+    for _ in range(rng.randint(0, n + 1)):
+        ops.append(("x",))
+    return ops
+
+
 def enum_small(cap, keys, length):
     """all histories over a small alphabet (thorough tier)."""
     alphabet = [("x",), ("c",)]
@@ -437,7 +468,7 @@ def run(ctx):
     exe = ctx.cpp("harness/c16.cpp")
     mexe = ctx.extract()
     stats = {"max_rank": 0}
-    hist = {"corpus": 0, "random": 0, "thin": 0, "dijkstra": 0, "exhaustive": 0}
+    hist = {"corpus": 0, "random": 0, "thin": 0, "dijkstra": 0, "extreme_keys": 0, "exhaustive": 0}
     cases = []
     for name, c in ctx.corpus():
         cases.append({"cap": c["cap"], "ops": [tuple(o) for o in c["ops"]], "dump": True})
@@ -459,6 +490,10 @@ def run(ctx):
         cases.append({"cap": (n := rng.choice([2, 3, 5, 9, 13, 15, 20, 40, 64])), "ops": gen_dijkstra(rng, n),
                       "dump": True})
         hist["dijkstra"] += 1
+    for _ in range(120 if quick else 1200):
+        cap = rng.choice([1, 2, 3, 5, 6, 8, 13, 21, 40])
+        cases.append({"cap": cap, "ops": gen_extreme(rng, cap), "dump": True})
+        hist["extreme_keys"] += 1
     # a few long histories on big heaps, outputs only (no structural dump: O(cap) per op)
     for cap, length in ([(1000, 6000)] if quick else [(1000, 20000), (10000, 100000), (4181, 50000)]):
         cases.append({"cap": cap, "ops": gen_random(rng, cap, length, 10 ** 6, (6, 6, 3, 0.001)), "dump": False})
